@@ -109,6 +109,12 @@ def run_op(case, ctx, g):
     what = '%s M=%s K=%s N=%s RA=%s RB=%s batch=%s %s %s' % (op, M, K, N, RA, RB, case.get('batch'), case['dtype'], vals)
     key = 'op/%s' % op
     A = gens.make_tt(K, RA, dt, vals, g, M=M)       # operator M x K
+    zk = case.get('seed', 0) % 11
+    if zk == 3:
+        # an exactly zero FIRST operand (what torchtt.zeros / 0*A hand out): sums and differences with a zero term
+        import torchtt
+        A = torchtt.TT([c * 0 if k_ == (case['seed'] // 11) % d else c for k_, c in enumerate(A.cores)])
+        ctx.count('operand:zero-first')
     dA = dn.D(A)
     sA = dn.s_rep(A)
     bA = gens.abs_bound(A)
@@ -160,6 +166,10 @@ def run_op(case, ctx, g):
         ctx.count('branch:t')
     elif op in ('add', 'sub', 'mul'):
         B = gens.make_tt(K, RB, dt, vals, g, M=M)
+        if zk == 7:
+            import torchtt
+            B = torchtt.TT([c * 0 if k_ == (case['seed'] // 11) % d else c for k_, c in enumerate(B.cores)])
+            ctx.count('operand:zero-second')
         dB = dn.D(B)
         if op == 'add':
             ref, scale, bound, expR = dA + dB, sA + dn.s_rep(B), bA + gens.abs_bound(B), [1] + [a + b for a, b in zip(RA[1:-1], RB[1:-1])] + [1]
@@ -196,7 +206,8 @@ def run_op(case, ctx, g):
         return
     compare(ctx, key, got, ref, vals == 'int' and gens.exact_ok(dt, bound), dn.ueps(dt), scale, what)
     check_dtype(ctx, key, res, dt, what)
-    if expR is not None:
+    if expR is not None and op not in ('add', 'sub', 'neg'):
+        # C04 promises the rank structure of PRODUCTS only (A@x, x@A, A@B, elementwise *); the ranks of operator sums are not part of its statement (C03 states them for tensors)
         check_ranks(ctx, key, res, expR, what)
     want_ttm = op in ('AB', 't', 'add', 'sub', 'mul', 'neg')
     if bool(res.is_ttm) != want_ttm:
